@@ -3,4 +3,4 @@ CONSTANTS
   MaxCommits = 3
   MaxOps = 1
 VIEW View
-INVARIANTS C14_BlockExact C14_NoChangeMigrates Emit
+INVARIANTS C14_BlockExact C14_NoChangeMigrates C15_TableMatchesHistory Emit
